@@ -3,7 +3,8 @@ import FimVerif.Model.Query
 /-! Line protocol for C06.  One request per graph:
     `["g", [[id, cls]…], [[a, rel, b]…], [query…]]` with queries
     `["fn", n, rel, cls]`, `["two", n, rel1, cls1, rel2, cls2]`, `["sp", a, z, rel|null]`,
-    `["hops", a, z, [hop…], cutoff]`, `["parent", n, rel, cls]`, `["second", n, rel1, cls1, rel2, cls2]`, `["wf"]`.
+    `["hops", a, z, [hop…], cutoff]`, `["parent", n, rel, cls]`, `["second", n, rel1, cls1, rel2, cls2]`,
+    `["linkcps" | "childcps" | "nodecps" | "peer", n]` (derived helpers, gate and constants from the source), `["wf"]`.
     Reply `["ok", [result…]]`, each result `["ok", value]` or `["err", kind]`. -/
 open Lean FimVerif.Proto FimVerif.Query
 
@@ -20,6 +21,10 @@ def query (g : TGraph) (q : Json) : Json :=
   | .arr #[.str "second", .str n, .str r1, .str c1, .str r2, .str c2] => res ofStrs (secondComponents g n r1 c1 r2 c2)
   | .arr #[.str "parent", .str n, .str r, .str c] =>
     res (fun o => match o with | some p => Json.str p | none => Json.null) (getParentId g n r c)
+  | .arr #[.str "linkcps", .str n] => res ofStrs (linkCps g n)
+  | .arr #[.str "childcps", .str n] => res ofStrs (childCps g n)
+  | .arr #[.str "nodecps", .str n] => res ofStrs (nodeCps g n)
+  | .arr #[.str "peer", .str n] => res ofStrs (peerCps g n)
   | .arr #[.str "sp", .str a, .str z, .str r] => res ofStrs (getNodesOnShortestPath g a z (some r))
   | .arr #[.str "sp", .str a, .str z, .null] => res ofStrs (getNodesOnShortestPath g a z none)
   | .arr #[.str "hops", .str a, .str z, hs, c] =>
